@@ -2,6 +2,7 @@
     types, so they cannot be weakened silently. *)
 From Coq Require Import NArith List Bool.
 From RsM Require Import Model.Lifecycle Model.LifecycleSpec Proofs.LifecycleInv Props.C07.
+(* -- *)
 Import ListNotations.
 Open Scope N_scope.
 
